@@ -310,6 +310,8 @@ func (e *Engine) runExtra(name, prop string) []*Obligation {
 		return e.globalFrameScan(prop)
 	case "immutable-fields":
 		return e.immutableFieldScan(prop)
+	case "grammar-values":
+		return e.grammarScan(prop)
 	}
 	return []*Obligation{{Name: "extra." + name, Kind: "frame", Status: "undecided", Clause: "unknown analysis " + name}}
 }
